@@ -575,6 +575,13 @@ def run(prop, tier):
     res = C.Result(prop, tier)
     proof = C.proof_step(PROPS[prop] + ["Conc/MonitorProofs.v"] if False else PROPS[prop])
     C.import_auditok()
+    tie = None
+    if prop == "C13":
+        from ..py2coq import misctie
+        tie = misctie.tie_group("savers")
+        proof["tie_obligations"] = tie["obligations"]
+        if not tie["ok"]:
+            proof["undischarged"] = tie["obligations"]
     quick = tier == "quick"
     r = C.rng(prop)
     scen = []
@@ -715,6 +722,7 @@ def run(prop, tier):
                             "trace": ob["log"][:60], "model_final_state": mr[1][1] if mr[0] == 0 else mr})
     vm_n = C.vm_crosscheck([c for c in mcases if len(c[1][11]) < 80][:12], [m for c, m in zip(mcases, mres) if len(c[1][11]) < 80][:12], prop, max_cases=8)
     proof["trusted"] = [
+        "the writer's and the joiner's methods (_process_message, _write_cached_data, the drain loop of _post_process, _write_audio_event) are translated from /repo on every run and proved equal to Conc/Savers.v for all cache sizes (TieSavers.v; used by C13); "
         "interleaving model Conc/Workers.v written by hand from workers.py at queue-operation granularity (Queue assumed a linearizable FIFO, join returns iff the target exited, timeouts are stutter steps); "
         "tied by correspondence only: the real threads run in lock-step under controlled schedules and every trace is replayed by the extracted Coq monitor (Monitor.v; MonitorProofs.monitor_reachable: accepted traces end in exec-reachable states)",
         "lock-step scheduler harness/sched/lockstep.py (rebinds auditok.workers.Queue, Worker.start, Worker.join, print; the AudioReader is wrapped in a proxy whose read() is a scheduling point)",
@@ -730,10 +738,15 @@ def run(prop, tier):
                 "distinct non-trivial = distinct (stream, observers, saver, sequence of (thread, operation)) with at least one detection" % (12 if quick else 30, len(base_for_all_points)),
         "samples": samples, "traces_validated_against_impl": len(mcases) - len(mismatches), "trace_events_accepted_by_monitor": accepted_events,
         "vm_compute_crosschecked": vm_n, "correspondence_mismatches": len(mismatches),
+        "tie_translation": tie["detail"][:300] if tie is not None else "none for this property",
     })
     if prop in violations:
         v = violations[prop]
         res.add_violation(v["what"], v)
+    elif tie is not None and not tie["ok"]:
+        res.add_violation("translation tie broken: %s -- the statement itself held on all %d real runs" % (tie["detail"][:700], len(results)),
+                          {"no_longer_checks": "TieSavers.v (StreamSaverWorker._process_message / _write_cached_data / drain loop, AudioEventsJoinerWorker._write_audio_event)",
+                           "tie_detail": tie["detail"], "first_mismatches": mismatches[:2]}, no_input=True)
     elif mismatches:
         m = mismatches[0]
         res.add_violation("correspondence with the interleaving model broken: %s -- the statement itself held on all %d real runs" % (m["what"], len(results)),
